@@ -1,6 +1,11 @@
 //! Stand-in for `mio_extras::timer::{Timer, Timeout}` (the five calls amiquip uses).
 //! In real-time mode it delegates to the real timer; in virtual mode a timeout becomes
 //! readable exactly when the virtual clock reaches its deadline.
+//!
+//! Like the real timer, the stand-in raises its readiness only at a *scheduled* wake-up: the
+//! earliest deadline known when a timeout is set, when the timer is registered, or when a
+//! `poll()` finds nothing more expired. A readiness event that is not followed by `poll()`
+//! is therefore not repeated just because more time passes.
 use super::clock::{self, Alarm};
 use mio::{Evented, Poll, PollOpt, Ready, Registration, SetReadiness, Token};
 use std::io;
@@ -18,16 +23,50 @@ struct Shared {
     pending: Mutex<Vec<(u64, u64)>>,
     set_readiness: Mutex<Option<SetReadiness>>,
     registration: Mutex<Option<Registration>>,
+    // deadline of the scheduled wake-up, if one is scheduled (the real timer's wakeup_state)
+    wake_at: Mutex<Option<u64>>,
+}
+
+impl Shared {
+    // the real timer's schedule_readiness: only ever moves the wake-up earlier, and does
+    // nothing before the timer is registered
+    fn schedule(&self, deadline: u64) {
+        if self
+            .set_readiness
+            .lock()
+            .unwrap_or_else(|e| e.into_inner())
+            .is_none()
+        {
+            return;
+        }
+        let mut w = self.wake_at.lock().unwrap_or_else(|e| e.into_inner());
+        if w.map(|cur| deadline < cur).unwrap_or(true) {
+            *w = Some(deadline);
+        }
+    }
+
+    fn earliest_pending(&self) -> Option<u64> {
+        self.pending
+            .lock()
+            .unwrap_or_else(|e| e.into_inner())
+            .iter()
+            .map(|(d, _)| *d)
+            .min()
+    }
 }
 
 impl Alarm for Shared {
     fn clock_advanced(&self, now_ns: u64) {
-        let due = self
-            .pending
-            .lock()
-            .unwrap_or_else(|e| e.into_inner())
-            .iter()
-            .any(|(d, _)| *d <= now_ns);
+        let due = {
+            let mut w = self.wake_at.lock().unwrap_or_else(|e| e.into_inner());
+            match *w {
+                Some(at) if at <= now_ns => {
+                    *w = None;
+                    true
+                }
+                _ => false,
+            }
+        };
         if due {
             if let Some(sr) = &*self.set_readiness.lock().unwrap_or_else(|e| e.into_inner()) {
                 let _ = sr.set_readiness(Ready::readable());
@@ -94,6 +133,7 @@ impl<T> Default for Timer<T> {
                 pending: Mutex::new(Vec::new()),
                 set_readiness: Mutex::new(None),
                 registration: Mutex::new(None),
+                wake_at: Mutex::new(None),
             });
             registry()
                 .lock()
@@ -125,6 +165,7 @@ impl<T> Timer<T> {
                     .lock()
                     .unwrap_or_else(|e| e.into_inner())
                     .push((deadline, id));
+                v.shared.schedule(deadline);
                 v.values.push((id, state));
                 Timeout::Virtual(id)
             }
@@ -180,6 +221,9 @@ impl<T> Timer<T> {
                         {
                             let _ = sr.set_readiness(Ready::empty());
                         }
+                        if let Some(next) = v.shared.earliest_pending() {
+                            v.shared.schedule(next);
+                        }
                         None
                     }
                 }
@@ -213,10 +257,14 @@ impl<T> Evented for Timer<T> {
                 let (registration, set_readiness) = Registration::new2();
                 poll.register(&registration, token, interest, opts)?;
                 *sr = Some(set_readiness);
+                drop(sr);
                 *v.shared
                     .registration
                     .lock()
                     .unwrap_or_else(|e| e.into_inner()) = Some(registration);
+                if let Some(next) = v.shared.earliest_pending() {
+                    v.shared.schedule(next);
+                }
                 Ok(())
             }
         }
